@@ -449,6 +449,10 @@ def known_match(case: dict, detail: Any) -> Optional[str]:
     if wh and re.search(r'validators/assertions\.py:\d+ __call__$', wh[-1]) and \
             exc in ('InvalidOperation', 'OverflowError', 'ZeroDivisionError', 'DivisionByZero', 'DecimalException', 'ArithmeticError'):
         return 'C11-F8'
+    if exc.startswith('ElementPath') and 'invalid URI in an EQName' in (detail.get('msg') or '') and len(wh) >= 2 and \
+            re.search(r'validators/schemas\.py:\d+ iter_errors$', wh[-2]) and re.search(r'xpath/mixin\.py:\d+ findall$', wh[-1]) \
+            and str(detail.get('entry', '')).startswith('lazy.'):
+        return 'C11-F11'
     if exc in ('LookupError', 'ValueError', 'UnicodeError'):
         data = case_bytes(case)
         if data is not None:
@@ -1170,6 +1174,19 @@ def fuzz_part(ctx: Ctx, drv: Optional[Driver]) -> None:
                        ('T/1.0', '<p:root xmlns:p="urn:t" xmlns:xsi="%s" version="1"><p:title>x</p:title>'
                                  '<p:head xsi:type="p:nonexistent"><p:n>a</p:n></p:head></p:root>' % G.XSI)):
         fuzz_case(ctx, schemas[sname], sname, xml.encode(), 'witness', seen)
+    for sname, data in (('T/1.0', b'&roo\x00t xmlns="urn:t"><a/>'),                                   # C11-F10
+                        ('T/1.0', b'<?xml version="1.0" encoding="no-such-encoding"?><a/>'),          # C11-F6
+                        ('T/1.0', b'<o:root xmlns:o="urn:o" version="1"/>'),                          # C11-F7
+                        ('T/1.1', ('<p:root xmlns:p="urn:t" xmlns:xsi="%s" version="2"><p:title>x</p:title><p:item key="1">'
+                                   '<p:price>NaN</p:price></p:item></p:root>' % G.XSI).encode()),          # C11-F8
+                        ('T/1.1', ('<p:root xmlns:p="urn:t" xmlns:xsi="%s" version="2"><p:title>x</p:title><p:item key="1">'
+                                   '<p:code xsi:type=":">A</p:code><p:price>1</p:price></p:item></p:root>' % G.XSI).encode())):  # C11-F9
+        fuzz_case(ctx, schemas[sname], sname, data, 'witness', seen)
+    # unknown / odd namespace names (C11-F11 shows up for lazy resources)
+    for ns in ('http://[bad', 'urn:x y', 'http://example.c]]&gt;om/v', '%zz', 'urn:' + 'n' * 3000, 'é', ' '):
+        for sname in ('T/1.0', 'recursive/1.0') + (('corpus:vehicles',) if 'corpus:vehicles' in schemas else ()):
+            xml = '<w:vehicles xmlns:w="%s"><w:cars><w:car make="a" model="b"/></w:cars><w:bikes/></w:vehicles>' % ns
+            fuzz_case(ctx, schemas[sname], sname, xml.encode(), 'odd-namespace', seen)
     for i in range(n_tree):
         fam = rng.choice(['T', 'T', 'N'])
         v = rng.choice(['1.0', '1.1'])
